@@ -248,20 +248,17 @@ func (fx *c07Fx) judge(run *c07Run) {
 		}
 		return
 	}
-	// the failure reason put into the event is bounded and valid text, whatever the payload made it say
+	// OBSERVATION only (not part of C07 as stated, so never a violation): shape of the failure reason in the event.
+	// On the unchanged tree the byte-wise truncation reason[:128] can split a multi-byte character of
+	// payload-controlled error text, leaving a reason attribute that is not valid UTF-8 (DESIGN.md section 7).
 	for _, ev := range run.Res.Events {
 		if ev.Type == "finalize_token_deposit" {
 			rs := attr(ev, "reason")
-			// "hook failed; " / "deposit failed; " + at most 128 bytes + "..."
 			if len(rs) > len("deposit failed; ")+128+3 {
-				fx.viol(run, "C07:reason-attribute:too-long", fmt.Sprintf("the reason attribute of the deposit event has %d bytes", len(rs)))
+				fx.known["obs:reason-too-long"] = true
 			}
 			if !utf8.ValidString(rs) {
-				// KNOWN FINDING D16: the byte-wise truncation reason[:128] can split a multi-byte character
-				if !fx.known["reason-utf8"] {
-					fx.viol(run, "C07:reason-attribute:invalid-utf8", fmt.Sprintf("the reason attribute of the deposit event (%d bytes) is not valid UTF-8: the 128-byte truncation split a multi-byte character of payload-controlled error text", len(rs)))
-				}
-				fx.known["reason-utf8"] = true
+				fx.known["obs:reason-utf8"] = true
 			}
 		}
 	}
@@ -896,8 +893,7 @@ func genC07(seed uint64, tier string, outdir string) *Report {
 		}
 		rep.Notes = append(rep.Notes, fmt.Sprintf("gas clause, base %s: out-of-gas hook %d <= instantly failing hook %d + hook_max_gas %d (+ %d slack for the grown account record)", k, g[1], g[0], c07SmallGas, c07GasSlack))
 	}
-	rep.KnownChecked = append(rep.KnownChecked, KnownResult{ID: "C07:reason-attribute:invalid-utf8", StillFails: known["reason-utf8"],
-		What: "the reason attribute of finalize_token_deposit is not valid UTF-8 for payload-controlled multi-byte error text"})
+	rep.Notes = append(rep.Notes, fmt.Sprintf("observation (not a C07 clause): reason attribute longer than prefix+128+3 bytes seen: %v; reason attribute that is not valid UTF-8 seen: %v (byte-wise truncation of payload-controlled multi-byte error text)", known["obs:reason-too-long"], known["obs:reason-utf8"]))
 	for _, c := range c07Classes {
 		rep.KnownChecked = append(rep.KnownChecked, KnownResult{ID: "C07:unguarded-fault:" + c, StillFails: known[c],
 			What: "fault injected at the unguarded call-site class '" + c + "' surfaces as a handler failure"})
